@@ -332,6 +332,12 @@ structure PruneSt where
   prunedResolved : List Nat
 deriving Repr, DecidableEq, Inhabited
 
+/-- `op_node.capture_names().any(|name| graph.get_node_id(name).is_none())` (commit c276359):
+an operator whose subgraphs capture a name that does not resolve in this graph is pruned.
+IR convention: a capture id outside the node table stands for "name not found". -/
+def hasUnresolvedCaptures (g : Graph) (op : OpNode) : Bool :=
+  op.captureIds.any (fun c => !decide (c < g.nodes.length))
+
 def pruneLoop (g : Graph) : List Nat → PruneSt → PruneSt
   | [], st => st
   | i :: is, st =>
@@ -339,7 +345,7 @@ def pruneLoop (g : Graph) : List Nat → PruneSt → PruneSt
     | none => pruneLoop g is st
     | some op =>
       let deps := opDeps g op
-      if !op.deterministic || !deps.all (rContains g st.resolved) then
+      if !op.deterministic || !deps.all (rContains g st.resolved) || hasUnresolvedCaptures g op then
         pruneLoop g is
           { st with prunedResolved := st.prunedResolved ++ deps.filter (rContains g st.resolved) }
       else
